@@ -222,3 +222,57 @@ def decode(bs):
 
 def width_of(v):
     return max(1, (v.bit_length() + 7) // 8)
+
+
+# ---------------------------------------------------------------- the parser's Debug rendering
+_NAMES = None
+
+
+def variant_names():
+    """mnemonic -> Rust variant name (the TOML table key)"""
+    global _NAMES
+    if _NAMES is None:
+        d = tomllib.load(open(os.path.join(REPO, "etk-ops", "src", "cancun.toml"), "rb"))
+        _NAMES = {v["mnemonic"]: k for k, v in d.items()}
+    return _NAMES
+
+
+def expr_debug(e):
+    k = e[0]
+    if k == "num":
+        return f"Expression::Terminal(Terminal::Number({e[1]}))"
+    if k == "lbl":
+        return f"Expression::Terminal(Terminal::Label({e[1]}))"
+    if k == "var":
+        return f"Expression::Terminal(Terminal::Variable({e[1]}))"
+    if k == "paren":
+        return expr_debug(e[1])          # the parser builds no node for parentheses
+    if k == "macro":
+        return f'Expression::Macro("{e[1]}")'
+    name = {"+": "Plus", "-": "Minus", "*": "Times", "/": "Divide"}[k]
+    return f"Expression::{name}({expr_debug(e[1])}, {expr_debug(e[2])})"
+
+
+def aop_debug(o):
+    k = o[0]
+    if k == "op":
+        v = variant_names()[o[1]]
+        if o[2] is None:
+            return f"Op({v}({v}))"
+        return f"Op({v}({v}(Imm {{ tree: {expr_debug(o[2])} }})))"
+    if k == "label":
+        return f'Label("{o[1]}")'
+    if k == "push":
+        return f"Push(Imm {{ tree: {expr_debug(o[1])} }})"
+    if k == "macro":
+        return f'Macro(InstructionMacroInvocation {{ name: "{o[1]}", parameters: [{", ".join(expr_debug(a) for a in o[2])}] }})'
+    params = "[" + ", ".join(f'"{p}"' for p in o[2]) + "]"
+    if k == "defe":
+        return f'MacroDefinition(Expression(ExpressionMacroDefinition {{ name: "{o[1]}", parameters: {params}, content: Imm {{ tree: {expr_debug(o[3])} }} }}))'
+    if k == "defi":
+        return f'MacroDefinition(Instruction(InstructionMacroDefinition {{ name: "{o[1]}", parameters: {params}, contents: [{", ".join(aop_debug(b) for b in o[3])}] }}))'
+    raise ValueError(k)
+
+
+def prog_debug(prog):
+    return "\n".join(f"Op({aop_debug(o)})" for o in prog)
